@@ -1,5 +1,6 @@
 import Driver.Ring
 import Driver.Shard
+import Driver.Routing
 /-
 Model driver: reads the op lines a harness engine wrote (first line `engine <name>`), runs the
 executable Lean model, prints one observation line per op line.  `/verif/check` diffs this
@@ -12,12 +13,14 @@ inductive St where
   | ring (s : Option S2S.Ring.Buf)
   | shard
   | observer (o : S2S.Observer.Obs)
+  | routing (d : Drv.Routing.DSt)
 
 def initSt (engine : String) : Option St :=
   match engine with
   | "ring" => some (.ring Option.none)
   | "shard" => some .shard
   | "observer" => some (.observer {})
+  | "routing" => some (.routing {})
   | _ => Option.none
 
 def stepSt (st : St) (line : String) : St × String :=
@@ -26,6 +29,7 @@ def stepSt (st : St) (line : String) : St × String :=
   | .ring s => let (s', o) := Drv.Ring.step s line; (.ring s', o)
   | .shard => (.shard, Drv.Shard.step line)
   | .observer ob => let (ob', o) := Drv.Observer.step ob line; (.observer ob', o)
+  | .routing d => let (d', o) := Drv.Routing.step d line; (.routing d', o)
 
 partial def loop (h : IO.FS.Stream) (out : IO.FS.Stream) (st : St) : IO Unit := do
   let line ← h.getLine
